@@ -186,6 +186,11 @@ static void blk_text(void) {
 			else if (n <= cap) { if (r != 1 || ol != n || memcmp(o, BIN, n)) { char key[96]; snprintf(key, sizeof key, "roundtrip:newline=%d", nl); viol_rt("pem", key, "\"maxlen\":%zu,\"bodylen\":%zu,\"ret\":%d,\"outlen\":%zu", cap, n, r, ol); } }
 			else if (r == 1) viol_rt("pem", "accepts-body-larger-than-maxlen", "\"maxlen\":%zu,\"bodylen\":%zu,\"outlen\":%zu", cap, n, ol);
 			free(txt); free(t2); }
+		/* the same body re-wrapped at every line width 1..79 and at alternating widths (63,77): never a write outside the buffer; success => exact data */
+		for (int w1 = 1; w1 <= 79; w1++) for (int w2v = 0; w2v < 3; w2v++) { if (!vh_next()) continue; int w2 = w2v == 0 ? w1 : w2v == 1 ? 77 : 63; size_t n = 300; static char flat[600], txt[1400]; size_t fl = 0; { static char tmp[700]; size_t tl2 = ref_b64(BIN, n, tmp); for (size_t i = 0; i < tl2; i++) if (tmp[i] != '\n') flat[fl++] = tmp[i]; }
+			size_t tl = 0; tl += (size_t)sprintf(txt, "-----BEGIN TEST-----\n"); size_t pos = 0; int tog = 0; while (pos < fl) { size_t w = (size_t)(tog ? w2 : w1); if (w > fl - pos) w = fl - pos; memcpy(txt + tl, flat + pos, w); tl += w; txt[tl++] = '\n'; pos += w; tog ^= 1; } tl += (size_t)sprintf(txt + tl, "-----END TEST-----\n");
+			char *hb = (char *)malloc(tl); memcpy(hb, txt, tl); FILE *g = fmemopen(hb, tl, "r"); size_t cap = 300; uint8_t *o = cap_buf(cap); size_t ol = 0; int r = pem_read(g, "TEST", o, &ol, cap); fclose(g); free(hb); size_t kk[2] = { (size_t)w1, (size_t)w2 }; vh_eval(vh_hash(kk, sizeof kk, 17));
+			if (!cap_ok(cap)) viol_rt("pem", "rewrapped-body-overruns", "\"w1\":%d,\"w2\":%d", w1, w2); else if (r == 1 && (ol != n || memcmp(o, BIN, n))) viol_rt("pem", "rewrapped-body-wrong-data", "\"w1\":%d,\"w2\":%d,\"outlen\":%zu", w1, w2, ol); }
 		/* malformed base64 inside a PEM body must not be reported as success with data */
 		for (int v = 0; v < 4; v++) { if (!vh_next()) continue; static const char *BODY[] = { "QUJD*EVG\n", "QUJDREV\n", "QUJD=EVG\n", "QUJ\x80REVG\n" }; char t[200]; snprintf(t, sizeof t, "-----BEGIN TEST-----\n%s-----END TEST-----\n", BODY[v]); FILE *g = fmemopen(t, strlen(t), "r"); size_t ol = 0; int r = pem_read(g, "TEST", out, &ol, 100); fclose(g); vh_eval(vh_mix(v + 8900));
 			if (r == 1) { char key[64]; snprintf(key, sizeof key, "accepts-malformed-base64:%d", v); viol_rt("pem", key, "\"body\":\"%s\",\"outlen\":%zu", vh_hex(BODY[v], strlen(BODY[v])), ol); } }
@@ -199,14 +204,18 @@ static void blk_composite(void) {
 		ENC2("sm2_private_key", sm2_private_key_to_der(&k, NULL, &dl_), sm2_private_key_to_der(&k, &p_, &wl_), b, bl); cp = b; il = bl; vh_eval(vh_mix(d + 1)); if (sm2_private_key_from_der(&k2, &cp, &il) != 1 || il || memcmp(k.private_key, k2.private_key, 32) || sm2_public_key_equ(&k, &k2) != 1) { snprintf(key, sizeof key, "roundtrip:%d", d); viol_rt("sm2_private_key", key, "\"der\":\"%s\"", vh_hex(b, bl)); } if (!der_tree_ok(b, bl, 0)) viol_rt("sm2_private_key", "not-strict-der", "\"der\":\"%s\"", vh_hex(b, bl));
 		ENC2("sm2_private_key_info", sm2_private_key_info_to_der(&k, NULL, &dl_), sm2_private_key_info_to_der(&k, &p_, &wl_), b, bl); cp = b; il = bl; const uint8_t *at; size_t al; vh_eval(vh_mix(d + 11)); if (sm2_private_key_info_from_der(&k2, &at, &al, &cp, &il) != 1 || il || memcmp(k.private_key, k2.private_key, 32)) viol_rt("sm2_private_key_info", "roundtrip", "\"d\":%d", d); if (!der_tree_ok(b, bl, 0)) viol_rt("sm2_private_key_info", "not-strict-der", "\"d\":%d", d);
 		ENC2("sm2_public_key_info", sm2_public_key_info_to_der(&k, NULL, &dl_), sm2_public_key_info_to_der(&k, &p_, &wl_), b, bl); cp = b; il = bl; vh_eval(vh_mix(d + 21)); if (sm2_public_key_info_from_der(&k2, &cp, &il) != 1 || il || sm2_public_key_equ(&k, &k2) != 1) viol_rt("sm2_public_key_info", "roundtrip", "\"d\":%d", d); if (!der_tree_ok(b, bl, 0)) viol_rt("sm2_public_key_info", "not-strict-der", "\"d\":%d", d);
-		/* every single-byte change of a SubjectPublicKeyInfo header (algorithm identifiers, lengths): accepted => still strict DER */
-		{ uint8_t m[200]; for (size_t pos = 0; pos < bl - 64; pos++) for (int dv = 1; dv < 256; dv += 7) { memcpy(m, b, bl); m[pos] ^= (uint8_t)dv; cp = m; il = bl; vh_evals++; if (sm2_public_key_info_from_der(&k2, &cp, &il) == 1 && il == 0 && !der_tree_ok(m, bl, 0)) { viol_rt("sm2_public_key_info", "accepts-non-strict", "\"der\":\"%s\"", vh_hex(m, bl)); break; } } }
+		/* every single-bit change of the SubjectPublicKeyInfo (algorithm identifiers, lengths, key): accepted => re-encodes to exactly the offered bytes */
+		{ uint8_t m[200], re[200]; for (size_t bit = 0; bit < bl * 8; bit++) { memcpy(m, b, bl); m[bit / 8] ^= (uint8_t)(1 << (bit % 8)); cp = m; il = bl; vh_evals++; if (sm2_public_key_info_from_der(&k2, &cp, &il) == 1 && il == 0) { vh_nontriv++; uint8_t *rp = re; size_t rl = 0; sm2_public_key_info_to_der(&k2, &rp, &rl); if (rl != bl || memcmp(re, m, bl)) { viol_rt("sm2_public_key_info", "accepted-but-reencodes-differently", "\"bit\":%zu,\"offered\":\"%s\"", bit, vh_hex(m, bl)); break; } } } }
 		/* PEM forms */
 		{ char *txt = NULL; size_t tl = 0; FILE *f = open_memstream(&txt, &tl); sm2_private_key_info_to_pem(&k, f); fclose(f); FILE *g = fmemopen(txt, tl, "r"); vh_eval(vh_mix(d + 31)); if (sm2_private_key_info_from_pem(&k2, g) != 1 || memcmp(k.private_key, k2.private_key, 32)) viol_rt("sm2_private_key_info", "pem-roundtrip", "\"d\":%d", d); fclose(g); free(txt);
 		  txt = NULL; f = open_memstream(&txt, &tl); sm2_public_key_info_to_pem(&k, f); fclose(f); g = fmemopen(txt, tl, "r"); vh_eval(vh_mix(d + 41)); if (sm2_public_key_info_from_pem(&k2, g) != 1 || sm2_public_key_equ(&k, &k2) != 1) viol_rt("sm2_public_key_info", "pem-roundtrip", "\"d\":%d", d); fclose(g); free(txt); }
 		/* password-encrypted PKCS#8: right password opens, every one-edit neighbour and "" does not */
 		if (d == 3 || vh_thorough) { const char *pw = "P@ssw0rd"; venv_reset(55 + d); ENC2("sm2_enced_private_key_info", sm2_private_key_info_encrypt_to_der(&k, pw, NULL, &dl_), (venv_reset(55 + d), sm2_private_key_info_encrypt_to_der(&k, pw, &p_, &wl_)), b, bl);
 			cp = b; il = bl; vh_eval(vh_mix(d + 51)); if (sm2_private_key_info_decrypt_from_der(&k2, &at, &al, pw, &cp, &il) != 1 || il || memcmp(k.private_key, k2.private_key, 32)) viol_rt("sm2_enced_private_key_info", "roundtrip", "\"d\":%d", d); if (!der_tree_ok(b, bl, 0)) viol_rt("sm2_enced_private_key_info", "not-strict-der", "\"d\":%d", d);
+			/* every single-bit change of the EncryptedPrivateKeyInfo: if the structure is still accepted it must re-encode to exactly the offered bytes (algorithm identifiers are part of the value) */
+			{ uint8_t m[700], re[700]; for (size_t bit = 0; bit < bl * 8; bit++) { memcpy(m, b, bl); m[bit / 8] ^= (uint8_t)(1 << (bit % 8)); const uint8_t *salt, *iv, *enc; size_t sl, ivl, encl; int iter, kl, prf, ciph; cp = m; il = bl; vh_evals++;
+				if (pkcs8_enced_private_key_info_from_der(&salt, &sl, &iter, &kl, &prf, &ciph, &iv, &ivl, &enc, &encl, &cp, &il) == 1 && il == 0) { vh_nontriv++; uint8_t *rp = re; size_t rl = 0; int rr = pkcs8_enced_private_key_info_to_der(salt, sl, iter, kl, prf, ciph, iv, ivl, enc, encl, &rp, &rl);
+					if (rr != 1 || rl != bl || memcmp(re, m, bl)) { viol_rt("pkcs8_enced_private_key_info", "accepted-but-reencodes-differently", "\"bit\":%zu,\"offered\":\"%s\",\"reencoded\":\"%s\"", bit, vh_hex(m, bl > 110 ? 110 : bl), vh_hex(re, rl > 110 ? 110 : rl)); break; } } } }
 			size_t pl = strlen(pw); char w[32]; int nw = 0;
 			for (size_t pos = 0; pos <= pl; pos++) for (int kind = 0; kind < 4; kind++) { /* substitute, delete, insert, case flip */
 				if (kind < 2 && pos == pl) continue; if (kind == 3 && (pos == pl || !((pw[pos] | 0x20) >= 'a' && (pw[pos] | 0x20) <= 'z'))) continue; size_t wl = 0;
